@@ -1037,6 +1037,9 @@ class ExternalTensor(TensorBase, _protocols.TensorProtocol):  # pylint: disable=
                     )
                 file.write(chunk)
                 bytes_to_copy -= len(chunk)
+                # Drop the buffer before the next read allocates its successor, so that at
+                # most one chunk is alive at a time (what _reservation_bytes reserves).
+                del chunk
 
     def valid(self) -> bool:
         """Check if the tensor is valid.
